@@ -209,7 +209,10 @@ REP = [("U.S.", "U.S."), ("F.2d", "F.2d"), ("U. S.", "U.S."), ("S. Ct.", "S. Ct.
 VOLPAGE = [("1", "1"), ("550", "544"), ("999", "12"), ("12", "xii"), ("585", "___")]
 PARALLEL = ["", ", 127 S. Ct. 1955"]
 PIN = ["", ", 5", ", 5-6", ", at 5", ", 5, 7", ", 5, n.3", ", *5", ", ¶ 5", ", 123:24-25", ", pp. 5-6", ", § 5", ", 5, & n.2"]
-COURTYEAR = ["", " (1999)", " (2d Cir. 1999)", " (Cal. Ct. App. 2005)", " [1999]", " (1993-94)"]
+import datetime as _dt
+
+NEXT_YEAR = _dt.date.today().year + 1  # documented as valid: a December opinion citing a case to be published in January
+COURTYEAR = ["", " (1999)", " (2d Cir. 1999)", " (Cal. Ct. App. 2005)", " [1999]", " (1993-94)", f" ({NEXT_YEAR})", f" (2d Cir. {NEXT_YEAR})", " (1600)"]
 PAREN = ["", " (overruling Baz)", " (quoting (x) y)"]
 TERM = [".", ";", ",", "", ")", "]"]
 SUF = [" Next sentence.", "", " See also 3 F.3d 9.", " Later, {de} at 5 was followed."]  # the last one: a later mention of the defendant (reference citation)
